@@ -67,9 +67,19 @@ var targets = []target{
 	{".", "", "RoundUpPowerOfTwo"},
 	{".", "", "Size"},
 	{".", "", "IsPowerOfTwo"},
+	{".", "Builder", "canFit"},
+	{".", "Builder", "CurrentSize"},
+	{".", "Builder", "SubtreeRootThreshold"},
+	{".", "Element", "maxShareOffset"},
+	{"share", "", "NewRange"},
+	{"share", "", "EmptyRange"},
+	{"share", "Range", "IsEmpty"},
+	{"share", "Range", "Add"},
 }
 
-var structTargets = []target{{"share", "", "CompactShareCounter"}}
+// structs are translated as their INTEGER PROJECTION: the integer and boolean fields only (a method that
+// touches another field is unsupported)
+var structTargets = []target{{"share", "", "CompactShareCounter"}, {"share", "", "Range"}, {".", "", "Builder"}, {".", "", "Element"}}
 
 type pkgInfo struct {
 	name  string
@@ -131,7 +141,7 @@ func main() {
 		}
 	}
 	var out strings.Builder
-	out.WriteString("/- GENERATED by /verif/translator from the Go source of the working tree (go/ast + go/types).\n   Do not edit: it is rewritten on every run of ./check. source-hash: " + sourceHash(repo) + " -/\n")
+	out.WriteString("/- GENERATED by /verif/translator from the Go source of the working tree (go/ast + go/types).\n   Do not edit: it is rewritten by ./check whenever the source changes (hash of the source: Gen/Src.hash). -/\n")
 	out.WriteString("import GoSquare.Tie.Prims\nset_option linter.unusedVariables false\nnamespace GoSquare.Src\n")
 	for _, st := range structTargets {
 		p := pkgs[st.dir]
@@ -245,6 +255,9 @@ func transStruct(p *pkgInfo, name string) (s string, err error) {
 	fmt.Fprintf(&b, "structure %s.%s where\n", p.name, name)
 	for i := 0; i < st.NumFields(); i++ {
 		f := st.Field(i)
+		if _, ok := intKind(f.Type()); !ok && !isBool(f.Type()) {
+			continue
+		}
 		fmt.Fprintf(&b, "  %s : %s\n", ident(f.Name()), leanType(f.Type()))
 	}
 	b.WriteString("  deriving DecidableEq, Repr\n")
@@ -796,6 +809,9 @@ func (t *tr) expr(e ast.Expr) string {
 	case *ast.SelectorExpr:
 		// field of a struct value
 		if sel, ok := t.p.info.Selections[e]; ok && sel.Kind() == types.FieldVal {
+			if _, ok := intKind(sel.Type()); !ok && !isBool(sel.Type()) {
+				fail("field %s is outside the integer projection of its struct", e.Sel.Name)
+			}
 			return fmt.Sprintf("%s.%s", t.expr(e.X), ident(e.Sel.Name))
 		}
 		fail("unsupported selector %s", e.Sel.Name)
@@ -856,6 +872,37 @@ func (t *tr) expr(e ast.Expr) string {
 		return t.arith(e.Op, a, b, t.p.info.TypeOf(e))
 	case *ast.CallExpr:
 		return t.call(e)
+	case *ast.CompositeLit:
+		ty := t.p.info.TypeOf(e)
+		lt := leanType(ty)
+		st, ok := ty.Underlying().(*types.Struct)
+		if !ok {
+			fail("unsupported composite literal")
+		}
+		vals := map[string]string{}
+		for i, el := range e.Elts {
+			if kv, ok := el.(*ast.KeyValueExpr); ok {
+				vals[kv.Key.(*ast.Ident).Name] = t.expr(kv.Value)
+			} else {
+				vals[st.Field(i).Name()] = t.expr(el)
+			}
+		}
+		var fs []string
+		for i := 0; i < st.NumFields(); i++ {
+			f := st.Field(i)
+			if _, ok := intKind(f.Type()); !ok && !isBool(f.Type()) {
+				if _, given := vals[f.Name()]; given {
+					fail("composite literal sets a field outside the integer projection")
+				}
+				continue
+			}
+			v, given := vals[f.Name()]
+			if !given {
+				v = zero(f.Type())
+			}
+			fs = append(fs, fmt.Sprintf("%s := %s", ident(f.Name()), v))
+		}
+		return fmt.Sprintf("({ %s } : %s)", strings.Join(fs, ", "), lt)
 	}
 	fail("unsupported expression %T", e)
 	return ""
